@@ -75,6 +75,7 @@ Theorem C08_source_skeleton :
    pipe_loop = ["call WaitForItem"; "call getOrCreateDeviceCache"; "call Emit"; "call processMessage"; "call Add"; "call Emit";
                 "call processDeviceMessagesInQueue"; "call Emit"] /\
    chain_key_flag_writers = ["ProcessMessageQueueForDevicePK"; "getOrCreateDeviceCache"] /\
+   chain_key_flag_users = ["ProcessMessageQueueForDevicePK"; "getOrCreateDeviceCache"] /\
    pipe_returns = (2, 0)%nat)%string.
 Proof. exact pipeline_shape. Qed.
 
